@@ -337,3 +337,43 @@ Proof.
   reflexivity.
 Qed.
 End Canon.
+
+(* ------------------------------------------------------------------ with the index lists the code computes *)
+Lemma covmat_optim_thm (cor : nat -> Q -> Q) ndim structs nvar db1 db2 ivar0 jvar0 nbgh1 nbgh2 :
+  (forall s a b, a == b -> cor s a == cor s b) ->
+  Forall (fun x => (x < d_n db1)%nat) nbgh1 ->
+  let ivars := active_vars nvar ivar0 in
+  let jvars := active_vars nvar jvar0 in
+  let index1 := multiple_ranks db1 ivars nbgh1 true false in
+  let index2 := multiple_ranks db2 jvars nbgh2 true false in
+  let rows := flat ivars index1 in
+  let cols := flat jvars index2 in
+  forall i j, (i < length rows)%nat -> (j < length cols)%nat ->
+  read_add (optim_updates cor ndim structs db1 db2 ivars jvars index1 index2) i j ==
+  read_set (plain_updates cor ndim structs false db1 db2 ivars jvars index1 index2) i j /\
+  read_set (plain_updates cor ndim structs false db1 db2 ivars jvars index1 index2) i j =
+  cov_plain cor ndim structs (coords_at db1 (snd (nth i rows (0, 0)%nat))) (coords_at db2 (snd (nth j cols (0, 0)%nat)))
+            (fst (nth i rows (0, 0)%nat)) (fst (nth j cols (0, 0)%nat)).
+Proof.
+  intros Hcor Hn ivars jvars index1 index2 rows cols i j Hi Hj.
+  apply (covmat_optim_eq cor ndim structs Hcor db1 db2 ivars jvars index1 index2 i j); [|exact Hi|exact Hj].
+  apply multiple_ranks_active. exact Hn.
+Qed.
+
+Lemma covmat_optim_sym_thm (cor : nat -> Q -> Q) ndim structs nvar db1 ivar0 nbgh1 :
+  (forall s a b, a == b -> cor s a == cor s b) ->
+  Forall (fun x => (x < d_n db1)%nat) nbgh1 ->
+  let ivars := active_vars nvar ivar0 in
+  let index1 := multiple_ranks db1 ivars nbgh1 true true in
+  let rows := flat ivars index1 in
+  forall i j, (i <= j)%nat -> (j < length rows)%nat ->
+  read_add (optim_updates_sym cor ndim structs db1 ivars index1) i j ==
+  read_set (plain_updates cor ndim structs true db1 db1 ivars ivars index1 index1) i j /\
+  read_set (plain_updates cor ndim structs true db1 db1 ivars ivars index1 index1) i j =
+  cov_plain cor ndim structs (coords_at db1 (snd (nth i rows (0, 0)%nat))) (coords_at db1 (snd (nth j rows (0, 0)%nat)))
+            (fst (nth i rows (0, 0)%nat)) (fst (nth j rows (0, 0)%nat)).
+Proof.
+  intros Hcor Hn ivars index1 rows i j Hij Hj.
+  apply (covmat_optim_sym_eq cor ndim structs Hcor db1 ivars index1 i j); [|exact Hij|exact Hj].
+  apply multiple_ranks_active. exact Hn.
+Qed.
